@@ -9,7 +9,14 @@ every class-level history (reads, library mutators, user edits, copies) up to a 
 Every history is replayed on real meshes: each read - and a closing sweep over every public
 property and a battery of ray / proximity queries - is compared with the same read on a
 mesh freshly built from the current arrays (and overrides).  Only such value mismatches are
-violations.
+violations (a mutator or copy that raises although the same call succeeds on the fresh mesh counts
+as one: the specification's actions are enabled whatever has been read before).
+
+Audit families (pair sweep style, enumerated in main): a seed on which the cleaning mutators really
+remove faces / vertices; mutators outside the TLC classes (XMUT: singular and negative-scale matrices,
+empty / int32 / list masks, repair functions, units, oriented box, non-finite data, reassignments that
+change the element counts); two library mutators in a row in both orders; copies as reads (q:copy);
+reads left out of the introspected key list (EXTRA_KEYS).
 """
 import copy as pycopy
 import inspect
@@ -33,7 +40,18 @@ ANGLE_KEYS = {"face_adjacency_angles", "face_angles", "vertex_defects", "integra
               "face_angles_sparse", "face_adjacency_projections", "face_adjacency_radius", "face_adjacency_span"}
 # values that are thresholds of floats or eigen-decompositions with sign/order freedom: compared
 # through invariants only (see canon)
-QUERY_KEYS = ["q:ray_hits", "q:ray_first", "q:contains", "q:nearest", "q:signed_distance"]
+QUERY_KEYS = ["q:ray_hits", "q:ray_first", "q:contains", "q:nearest", "q:signed_distance", "q:copy"]
+# reads that are only made in the audit families (main_extra): values cached on the mesh that the
+# introspected key list leaves out (SKIP_KEYS, for cost), the second ray engine held by the user
+# across mutations, and method-style reads that go through the cached mass properties / trees
+EXTRA_KEYS = ["bounding_box_oriented", "bounding_sphere", "q:rt_first", "q:rt_contains", "q:inertia_frame",
+              "q:nearest_vertex", "q:closest"]
+# values that derive from the cached normals (attribution of NearIdentityRotationKeepsNormals)
+NORMAL_DERIVED = {"face_normals", "vertex_normals", "q:ray_hits", "q:ray_first", "q:contains", "q:signed_distance", "q:copy",
+                  "q:rt_first", "q:rt_contains", "face_adjacency_angles", "face_adjacency_convex", "face_adjacency_projections",
+                  "face_adjacency_radius", "integral_mean_curvature", "is_convex", "facets", "facets_area", "facets_normal",
+                  "facets_origin", "facets_boundary", "facets_on_hull", "smooth_shaded", "symmetry", "symmetry_axis",
+                  "symmetry_section", "vertex_defects"}
 
 
 # ------------------------------------------------------------------ seeds
@@ -60,6 +78,14 @@ def seeds(trimesh):
     drop = {int(adj[5][0]), int(adj[5][1]), 40}
     keep = np.array([k for k in range(len(fi)) if k not in drop])
     out["ico_holes"] = (np.array(ico.vertices), fi[keep], {})
+    # a mesh on which the cleaning mutators really do something (they are no-ops on the seeds above):
+    # two tetrahedra, the first one using a duplicate of vertex 1 in one face, the second one with one face
+    # wound the wrong way, plus a repeated face (rotated indices) and a face with a repeated index
+    dv = np.vstack([v, v + [4, 0, 1], v[1:2]])
+    df = np.vstack([[[0, 2, 8], [0, 1, 3], [1, 2, 3], [2, 0, 3]],
+                    [[4, 6, 5], [4, 5, 7], [5, 6, 7], [6, 7, 4]],
+                    [[1, 3, 0]], [[4, 4, 5]]])
+    out["dirty"] = (dv, df, {})
     return out
 
 
@@ -98,7 +124,32 @@ def query(m, key, frame):
             order = np.lexsort((np.round(loc, 9).T[2], np.round(loc, 9).T[1], np.round(loc, 9).T[0], ray))
             return [np.asarray(ray)[order], np.asarray(loc)[order]]
         return np.asarray(m.ray.intersects_first(origins, dirs))
+    if key == "q:rt_first" or key == "q:rt_contains":
+        # an intersector of the pure-python engine created by the user once and held across mutations
+        rt = m.__dict__.get("_c01_rt")
+        if rt is None:
+            rt = import_trimesh().ray.ray_triangle.RayMeshIntersector(m)
+            m.__dict__["_c01_rt"] = rt
     pts = c + np.array([[0.11, 0.07, 0.05], [0.9, 0.8, 0.7], [-0.31, 0.22, 0.13], [0.02, -0.43, 0.29], [2.0, 2.0, 2.0]]) * ext
+    if key == "q:rt_first":
+        dirs = np.array([[1, 0.13, 0.07], [0.11, 1, 0.05], [0.03, 0.17, 1], [-1, 0.21, 0.09]])
+        origins = c - dirs * 3 * ext.max() + np.array([0.013, 0.027, 0.031]) * ext
+        return [np.asarray(rt.intersects_first(origins, dirs)), np.asarray(rt.intersects_any(origins, dirs))]
+    if key == "q:rt_contains":
+        return np.asarray(rt.contains_points(pts))
+    if key == "q:copy":
+        # a copy as a read: what a cached and an uncached copy report (copying also reads the colours)
+        a, b = m.copy(include_cache=True), m.copy()
+        return [np.asarray(a.vertices), np.asarray(a.faces), np.asarray(a.face_normals), np.asarray(b.faces),
+                np.asarray(b.area), np.asarray(len(b.visual.face_colors)), np.asarray(len(a.visual.vertex_colors))]
+    if key == "q:inertia_frame":
+        return np.asarray(m.moment_inertia_frame(M4(RQ, (1, 2, 3))))
+    if key == "q:nearest_vertex":
+        dist, vid = m.nearest.vertex(pts)
+        return np.asarray(dist)
+    if key == "q:closest":
+        cl, dist, tid = m.nearest.on_surface(pts)
+        return np.asarray(cl)
     if key == "q:contains":
         return np.asarray(m.contains(pts))
     if key == "q:nearest":
@@ -255,16 +306,31 @@ def _edit_ufunc(m):
     v[1:] = v[1:] + 0.5
 
 
+_t = 5e-7  # rotation below the "has rotation" shortcut of apply_transform but above its identity shortcut
+RTINY = np.array([[np.cos(_t), -np.sin(_t), 0], [np.sin(_t), np.cos(_t), 0], [0, 0, 1]])
+
+
+def _verts_int_drop(m):
+    """integer vertex mask that drops a vertex still used by a face (the faces using it go as well)"""
+    gone = int(m.faces[len(m.faces) // 2][1])
+    m.update_vertices(np.array([i for i in range(len(m.vertices)) if i != gone], dtype=np.int64))
+
+
 MUTATORS = {
     "identity": [lambda m: m.apply_transform(np.eye(4)), lambda m: m.apply_transform(M4(np.eye(3), (1e-10, 0, 0)))],
     "translate": [lambda m: m.apply_transform(M4(np.eye(3), (1, 2, 3))), lambda m: m.apply_translation([0.5, -1, 2]),
                   lambda m: m.rezero()],
     "rigid": [lambda m: m.apply_transform(M4(RZ, (1, 0, 2))), lambda m: m.apply_transform(M4(RQ, (0, 1, 0))),
-              lambda m: m.apply_transform(M4(RX @ RZ)), lambda m: m.apply_transform(M4(RSMALL, (0, 0, 1)))],
+              lambda m: m.apply_transform(M4(RX @ RZ)), lambda m: m.apply_transform(M4(RSMALL, (0, 0, 1))),
+              lambda m: m.apply_transform(M4(RTINY, (0, 0, 1)))],
     "scale": [lambda m: m.apply_transform(M4(np.eye(3) * 2.0)), lambda m: m.apply_scale(0.5),
-              lambda m: m.apply_transform(M4(RZ * 2.0, (1, 1, 1)))],
+              lambda m: m.apply_transform(M4(RZ * 2.0, (1, 1, 1))),
+              # the same kind of map handed over as a single precision, column-major array
+              lambda m: m.apply_transform(np.asfortranarray(M4(RX * 0.5, (0, 1, 0)).astype(np.float32)))],
     "mirror": [lambda m: m.apply_transform(M4(np.diag([-1.0, 1, 1]))), lambda m: m.apply_transform(M4(RZ @ np.diag([1.0, 1, -1]), (0, 2, 0))),
-               lambda m: m.apply_transform(M4(-np.eye(3)))],
+               lambda m: m.apply_transform(M4(-np.eye(3))),
+               # mirror combined with a uniform scale, handed over as nested lists
+               lambda m: m.apply_transform(M4(RZ @ np.diag([1.0, 1, -1]) * 3.0, (1, 0, 0)).tolist())],
     "aniso": [lambda m: m.apply_transform(M4(np.diag([1.0, 2, 3]))), lambda m: m.apply_scale([2, 1, 0.5]),
               lambda m: m.apply_transform(M4(RZ @ np.diag([1.0, 2.0, 1.0])))],
     "shear": [lambda m: m.apply_transform(M4(np.array([[1.0, 1, 0], [0, 1, 0], [0, 0, 1]]))),
@@ -272,7 +338,8 @@ MUTATORS = {
     "mirror_aniso": [lambda m: m.apply_transform(M4(np.diag([-1.0, 2, 1]))), lambda m: m.apply_transform(M4(np.diag([2.0, -3, 1]), (0, 0, 1)))],
     "invert": [lambda m: m.invert()],
     "faces_mask": [_faces_some, _faces_int, lambda m: m.remove_duplicate_faces(), lambda m: m.remove_degenerate_faces()],
-    "verts_mask": [_verts_referenced, lambda m: m.remove_unreferenced_vertices(), lambda m: m.remove_infinite_values()],
+    "verts_mask": [_verts_referenced, lambda m: m.remove_unreferenced_vertices(), lambda m: m.remove_infinite_values(),
+                   _verts_int_drop],
     "merge": [lambda m: m.merge_vertices(), lambda m: m.merge_vertices(merge_norm=True, merge_tex=True)],
     "unmerge": [lambda m: m.unmerge_vertices()],
     "process": [lambda m: m.process(), lambda m: m.process(validate=True)],
@@ -281,6 +348,139 @@ MUTATORS = {
     "center_mass": [lambda m: setattr(m, "center_mass", [0.5, 0.5, 0.25]), lambda m: setattr(m, "center_mass", [0.0, 1.0, 0.0])],
 }
 EDITS = [_edit_vertex, _edit_scale, _edit_faces, _reassign_v, _reassign_f, _edit_ufunc]
+
+# (class, variant) of the near-identity rotation: attribution of NearIdentityRotationKeepsNormals
+TINY_STEP = "rigid[4]"
+
+
+# ------------------------------------------------------------------ audit families: mutators outside the TLC classes
+def _acted(m, nv, f0):
+    """note on the mesh that the library call inside a compound operation really changed the arrays"""
+    if len(m.vertices) != nv or np.shape(m.faces) != np.shape(f0) or not np.array_equal(np.asarray(m.faces), f0):
+        m.__dict__["_c01_acted"] = True
+
+
+def _x_nan_referenced(m):
+    m.vertices[int(m.faces[0][0])] = np.nan
+    nv, f0 = len(m.vertices), np.array(m.faces)
+    m.remove_infinite_values()
+    _acted(m, nv, f0)
+
+
+def _x_inf_unreferenced(m):
+    m.vertices = np.vstack([np.array(m.vertices), [[np.inf, 0.0, 0.0]]])
+    nv, f0 = len(m.vertices), np.array(m.faces)
+    m.remove_infinite_values()
+    _acted(m, nv, f0)
+
+
+def _x_units(m):
+    m.units = "mm"
+    m.convert_units("inches")
+
+
+def _x_more_faces(m):
+    f = np.array(m.faces)
+    m.faces = np.vstack([f, f[:1, ::-1]])
+
+
+def _x_fewer_faces(m):
+    m.faces = np.array(m.faces)[:-1]
+
+
+def _x_more_vertices(m):
+    m.vertices = np.vstack([np.array(m.vertices), [[9.0, 9.0, 9.0]]])
+
+
+def _x_verts_int(m):
+    ref = np.zeros(len(m.vertices), dtype=bool)
+    ref[m.faces] = True
+    m.update_vertices(np.nonzero(ref)[0])
+
+
+def _x_fix_winding(m):
+    import_trimesh().repair.fix_winding(m)
+
+
+def _x_fix_inversion(m):
+    # the second half of the faces (the second body of a two-body seed) turned inside out by the user
+    n = len(m.faces) // 2
+    m.faces[n:] = np.fliplr(m.faces[n:])
+    nv, f0 = len(m.vertices), np.array(m.faces)
+    import_trimesh().repair.fix_inversion(m, multibody=True)
+    _acted(m, nv, f0)
+
+
+XMUT = {
+    "singular": lambda m: m.apply_transform(M4(np.diag([1.0, 1.0, 0.0]))),
+    "neg_scale": lambda m: m.apply_scale([1, 1, -1]),
+    "obb": lambda m: m.apply_obb(),
+    "units": _x_units,
+    "faces_none": lambda m: m.update_faces(np.zeros(len(m.faces), dtype=bool)),
+    "faces_i32_reversed": lambda m: m.update_faces(np.arange(len(m.faces) - 1, dtype=np.int32)[::-1]),
+    "faces_list": lambda m: m.update_faces([True] * (len(m.faces) - 1) + [False]),
+    "verts_int": _x_verts_int,
+    "nan_referenced": _x_nan_referenced,
+    "inf_unreferenced": _x_inf_unreferenced,
+    "merge_digits": lambda m: m.merge_vertices(digits_vertex=0),
+    "fix_winding": _x_fix_winding,
+    "fix_inversion": _x_fix_inversion,
+    "more_faces": _x_more_faces,
+    "fewer_faces": _x_fewer_faces,
+    "more_vertices": _x_more_vertices,
+}
+# what must really happen on at least one seed for the family to count (coverage guard)
+XMUT_EFFECT = {"nan_referenced": "acted", "inf_unreferenced": "acted", "faces_none": "nf0", "verts_int": "nv-", "merge_digits": "nv-",
+               "fix_winding": "faces", "fix_inversion": "acted", "more_faces": "nf+", "fewer_faces": "nf-", "more_vertices": "nv+"}
+
+
+def run_op(m, mu, vi):
+    """Apply one operation of the pair sweep; returns the object to read afterwards."""
+    if mu.startswith("edit+"):
+        EDITS[vi[0]](m)
+        MUTATORS[mu[5:]][vi[1]](m)
+    elif mu == "edit":
+        EDITS[vi](m)
+    elif mu == "copy_cache":
+        m = pycopy.copy(m) if vi else m.copy(include_cache=True)
+    elif mu.startswith("x:"):
+        XMUT[mu[2:]](m)
+    elif mu == "double":
+        a, ai, mid, b, bi = vi
+        MUTATORS[a][ai](m)
+        for k in mid:
+            getattr(m, k)
+        MUTATORS[b][bi](m)
+    else:
+        MUTATORS[mu][vi](m)
+    return m
+
+
+def snapshot(m):
+    d = m._data.data
+    return (np.array(m.vertices, dtype=np.float64), np.array(m.faces, dtype=np.int64),
+            np.array(d["center_mass"]).copy() if "center_mass" in d else None, float(m.density))
+
+
+def raises_on_fresh(trimesh, snap, op):
+    """Does the operation also fail on a mesh freshly built from the arrays the subject had?"""
+    v, f, cm, dens = snap
+    g = trimesh.Trimesh(vertices=v.copy(), faces=f.copy(), process=False)
+    if cm is not None:
+        g.center_mass = cm
+    if abs(dens - 1.0) > 0:
+        g.density = dens
+    try:
+        op(g)
+    except BaseException:
+        return True
+    return False
+
+
+def raise_detail(e):
+    return {"key": "mutator", "subject_raised": type(e).__name__ + ": " + str(e)[:80]}
+
+
 
 
 KEPT_HINT = ["face_normals", "vertex_normals", "edges", "edges_sorted", "edges_unique", "edges_unique_inverse", "faces_unique_edges",
@@ -465,16 +665,26 @@ def replay_history(trimesh, h, seedspec, classes, allkeys, variant, sweep_keys):
             vs = MUTATORS[st["mu"]]
             vi = (variant + j) % len(vs)
             steps.append("mutate %s.%s[%d]" % (st["o"], st["mu"], vi))
+            snap = snapshot(o)
             try:
                 vs[vi](o)
-            except BaseException:
+            except BaseException as e:
+                # the specification's mutators are enabled whatever has been read before
+                if not raises_on_fresh(trimesh, snap, vs[vi]):
+                    return raise_detail(e), steps
                 return None, steps
-        elif op == "copy_cache":
-            objs["c"] = pycopy.copy(objs["m"]) if (variant + j) % 2 else objs["m"].copy(include_cache=True)
-            steps.append("copy_cache")
-        elif op == "copy_plain":
-            objs["c"] = pycopy.deepcopy(objs["m"]) if (variant + j) % 2 else objs["m"].copy()
-            steps.append("copy_plain")
+        elif op in ("copy_cache", "copy_plain"):
+            steps.append(op)
+            odd = (variant + j) % 2
+            f = ((pycopy.copy if odd else (lambda x: x.copy(include_cache=True))) if op == "copy_cache" else
+                 (pycopy.deepcopy if odd else (lambda x: x.copy())))
+            snap = snapshot(objs["m"])
+            try:
+                objs["c"] = f(objs["m"])
+            except BaseException as e:
+                if not raises_on_fresh(trimesh, snap, f):
+                    return raise_detail(e), steps
+                return None, steps
     for name, o in objs.items():
         for key in sweep_keys:
             bad = compare(trimesh, o, key)
@@ -508,12 +718,15 @@ def _pair_chunk(args):
     sd = seeds(trimesh)
     out = []
     n = 0
+    effects = []
     for sname, k1, mu, vi, allkeys in args:
+        # allkeys: the keys read by "*" before and swept afterwards, or a pair (before, afterwards)
+        pre_keys, allkeys = allkeys if isinstance(allkeys, tuple) else (allkeys, allkeys)
         m = build(trimesh, sd[sname])
         steps = []
         if k1 is not None:
             if k1 == "*":
-                for k in allkeys:
+                for k in pre_keys:
                     try:
                         read(m, k, (np.array(m.bounds[0]), np.array(m.bounds[1])) if k.startswith("q:") else None)
                     except BaseException:
@@ -525,19 +738,30 @@ def _pair_chunk(args):
                 if bad:
                     out.append({"seed_mesh": sname, "steps": steps, "mismatch": bad})
                     continue
+        label = ("double %s[%d] reads(%s) %s[%d]" % (vi[0], vi[1], "+".join(vi[2]), vi[3], vi[4]) if mu == "double" else
+                 "edit[%d]+%s[%d]" % (vi[0], mu[5:], vi[1]) if mu.startswith("edit+") else "%s[%s]" % (mu, vi))
+        steps.append("mutate " + label)
+        snap = snapshot(m)
         try:
-            if mu.startswith("edit+"):
-                EDITS[vi[0]](m)
-                MUTATORS[mu[5:]][vi[1]](m)
-            elif mu == "edit":
-                EDITS[vi](m)
-            elif mu == "copy_cache":
-                m = pycopy.copy(m) if vi else m.copy(include_cache=True)
-            else:
-                MUTATORS[mu][vi](m)
-        except BaseException:
+            m = run_op(m, mu, vi)
+        except BaseException as e:
+            if not raises_on_fresh(trimesh, snap, lambda g: run_op(g, mu, vi)):
+                out.append({"seed_mesh": sname, "steps": steps, "mismatch": raise_detail(e)})
             continue
-        steps.append("mutate %s[%s]" % (mu, vi))
+        if mu.startswith("x:") or sname == "dirty" or mu == "double":
+            # what the operation really did to the arrays (coverage guards in main)
+            v0, f0 = snap[0], snap[1]
+            nv, nf = len(m.vertices), len(m.faces)
+            tags = ["nf0" if nf == 0 else "nf+" if nf > len(f0) else "nf-" if nf < len(f0) else
+                    "faces" if not np.array_equal(np.asarray(m.faces), f0) else "same",
+                    "nv+" if nv > len(v0) else "nv-" if nv < len(v0) else "nv="] + (["acted"] if m.__dict__.get("_c01_acted") else [])
+            effects.append((mu if mu.startswith("x:") else label, sname, tags))
+        if len(m.faces) == 0 and mu.startswith("x:"):
+            # an emptied mesh: nothing a fresh mesh could report differently except its emptiness
+            n += 1
+            if not (len(m.face_normals) == 0 and m.area == 0.0 and len(m.face_adjacency) == 0):
+                out.append({"seed_mesh": sname, "steps": steps, "mismatch": {"key": "area", "subject": "values of the removed faces", "fresh": "nothing"}})
+            continue
         # read the key read before first (the typical stale read), then everything
         if k1 in (None, "*") or len(allkeys) < 40:
             order = [k for k in allkeys]
@@ -554,7 +778,39 @@ def _pair_chunk(args):
             if bad:
                 out.append({"seed_mesh": sname, "steps": steps + ["read " + k], "mismatch": bad})
                 break
-    return out, n, len(args)
+    return out, n, len(args), effects
+
+
+def _indep_chunk(args):
+    """the arrays a mutator leaves behind with nothing read before / with everything read before"""
+    trimesh = import_trimesh()
+    sd = seeds(trimesh)
+    out = []
+    n = 0
+    for sname, mu, vi, keys in args:
+        a, b = build(trimesh, sd[sname]), build(trimesh, sd[sname])
+        for k in keys:
+            if not k.startswith("q:"):
+                try:
+                    getattr(b, k)
+                except BaseException:
+                    pass
+        try:
+            run_op(a, mu, vi)
+        except BaseException:
+            continue
+        n += 1
+        try:
+            run_op(b, mu, vi)
+        except BaseException as e:
+            # refused only because of what had been read before
+            out.append((sname, mu, vi, list(a.vertices.shape), [type(e).__name__ + ": " + str(e)[:80]]))
+            continue
+        same = (a.vertices.shape == b.vertices.shape and np.allclose(a.vertices, b.vertices, atol=1e-12, equal_nan=True) and
+                a.faces.shape == b.faces.shape and np.array_equal(a.faces, b.faces))
+        if not same:
+            out.append((sname, mu, vi, list(a.vertices.shape), list(b.vertices.shape)))
+    return out, n
 
 
 def apalache_inductive(cov):
@@ -591,6 +847,9 @@ def main(argv):
     tier = tier_from_args(argv)
     V = Verdict(PROP, tier)
     trimesh = import_trimesh()
+    # the degenerate seed makes the library log a warning with a traceback on every vertex_faces read
+    import logging
+    logging.getLogger("trimesh").setLevel(logging.ERROR)
     keys = all_keys(trimesh)
     keep, copy_verifies, locked = probe_keep(trimesh, keys)
     mutators = sorted(MUTATORS)
@@ -622,7 +881,7 @@ def main(argv):
 
     d = tlc.prepare("c01/mc", files={"MC_MeshCache.tla": gen_module(classes, mutators, intended_keep, valid_c, side_c, True, 0)})
     dm = 4 if tier == "quick" else 5
-    r = tlc.must(tlc.run(d, "MC_MeshCache", mc_cfg(dm, True, ["NoStaleRead", "EntriesAreForIdcur", "IdNotAhead"]), timeout=1500), "intended")
+    r = tlc.must(tlc.run(d, "MC_MeshCache", mc_cfg(dm, True, ["NoStaleRead", "EntriesAreForIdcur", "IdNotAhead", "MutatorsEnabled"]), timeout=1500), "intended")
     note(f"intended design depth {dm}", r)
     d2 = tlc.prepare("c01/asbuilt", files={"MC_MeshCache.tla": gen_module(classes, mutators, keep_c, valid_c, side_c, copy_verifies, 0, locked)})
     r = tlc.run(d2, "MC_MeshCache", mc_cfg(dm, copy_verifies, ["NoStaleRead"]), timeout=1500)
@@ -691,52 +950,99 @@ def main(argv):
                     for k1 in ["*"] + (kept_keys if ei == (vi % len(EDITS)) and tier == "thorough" else
                                        ["face_normals", "vertex_normals"] if ei == (vi % len(EDITS)) else []):
                         pair_work.append((sname, k1, "edit+" + mu, (ei, vi), kept_keys + ["area", "bounds", "volume", "face_adjacency_angles"]))
+    # ---- audit families (coverage audit of the quantifier, see DESIGN 4 / C01):
+    # (a) the seed on which the cleaning mutators really remove something
+    audit_post = list(dict.fromkeys(KEPT_HINT + ["area", "bounds", "volume", "face_adjacency_angles", "mass_properties", "is_watertight",
+                                                 "triangles", "vertex_faces", "q:ray_hits", "q:copy"]))
+    short_post = ["face_normals", "vertex_normals", "edges", "edges_unique", "edges_unique_inverse", "face_adjacency", "face_adjacency_edges",
+                  "euler_number", "area", "bounds", "volume", "face_adjacency_angles", "q:copy"]
+    n_base = len(pair_work)
+    for mu in ("faces_mask", "verts_mask", "merge", "unmerge", "process", "repair") + (("invert", "mirror", "aniso") if tier == "thorough" else ()):
+        for vi in range(len(MUTATORS[mu])):
+            for k1 in ["*", "face_normals", "vertex_normals", "face_adjacency", "edges_unique", "q:copy"] + (kept_keys if tier == "thorough" else []):
+                pair_work.append(("dirty", k1, mu, vi, keys if k1 == "*" else short_post))
+    # (b) mutators outside the TLC classes: degenerate matrices and masks, other entry points reaching the
+    #     same code (repair functions, units, oriented box), non-finite data, reassignments that change counts
+    xseeds = ["box_over", "strip_dup", "dirty"] if tier == "quick" else sorted(seeds(trimesh))
+    for sname in xseeds:
+        for xm in sorted(XMUT):
+            for k1 in ["*", "face_normals", "vertex_normals", "face_adjacency", "edges_unique", "q:copy"] + (kept_keys if tier == "thorough" else []):
+                pair_work.append((sname, k1, "x:" + xm, 0, (keys + EXTRA_KEYS, audit_post + EXTRA_KEYS) if k1 == "*" else short_post))
+    # (c) two library mutators in a row (both orders, a mutator twice), optionally with reads in between
+    dmut = [m for m in mutators if m not in ("identity", "density", "center_mass")]
+    dseeds = ["box_over", "strip_dup", "dirty"]
+    for ai, a in enumerate(dmut):
+        for bi, b in enumerate(dmut):
+            for rep in range(2 if tier == "quick" else 6):
+                r = ai * 5 + bi * 3 + rep * 7 + seed()
+                mid = [[], ["face_normals", "vertex_normals", "edges_unique"]][(ai + bi + rep) % 2]
+                pair_work.append((dseeds[r % 3], "*", "double", (a, r % len(MUTATORS[a]), mid, b, (r // 2) % len(MUTATORS[b])), short_post))
+    if "two_tets" not in xseeds:
+        for k1 in ["*", "face_normals", "q:copy"]:
+            pair_work.append(("two_tets", k1, "x:fix_inversion", 0, short_post))
+    n_audit = len(pair_work) - n_base
     res2 = pmap(_pair_chunk, pair_work, chunk=8)
     fails += [f for x in res2 for f in x[0]]
     nread += sum(x[1] for x in res2)
     npair = sum(x[2] for x in res2)
+    # coverage guards of the audit families: the operations must really have changed the arrays
+    eff = {}
+    for x in res2:
+        for name, sname, tags in x[3]:
+            eff.setdefault(name, set()).update(tags)
+    for xm, want in XMUT_EFFECT.items():
+        got = eff.get("x:" + xm, set())
+        if want not in got:
+            raise MachineryError("audit family: %s never had the effect %s (%s)" % (xm, want, sorted(got)))
+    n_x = sum(1 for name in eff if name.startswith("x:"))
+    dirty_eff = {name: tags for name, tags in eff.items() if not name.startswith("x:") and not name.startswith("double")}
+    dirty_real = sorted(name for name, tags in dirty_eff.items() if tags & {"nf-", "nf+", "nv-", "nv+", "faces"})
+    n_double = sum(1 for name in eff if name.startswith("double"))
+    if n_x < len(XMUT) - 2 or len(dirty_real) < 10 or n_double < (len(dmut) ** 2) * 3 // 2:
+        raise MachineryError("audit families came out nearly empty: extra mutators %d, effective cleaning mutators %d, double %d" %
+                             (n_x, len(dirty_real), n_double))
+    cov["audit_families"] = {"histories": n_audit, "extra_mutators_run": n_x, "cleaning_mutators_effective_on_dirty_seed": dirty_real,
+                             "double_mutator_histories": n_double, "extra_read_keys": EXTRA_KEYS}
     for f in fails:
         mm = f["mismatch"]
-        V.violation("NoStaleRead:" + mm["key"], f)
+        dev = None
+        if "face colors incorrect shape" in str(mm.get("subject_raised", "")):
+            # generated default colours of the old element count survive a change of the face / vertex count
+            dev = "GeneratedColorsWrongCount"
+        elif any(TINY_STEP in st for st in f["steps"]) and mm["key"] in NORMAL_DERIVED:
+            # apply_transform treats a linear part within 1e-6 of the identity as a translation and keeps the normals
+            dev = "NearIdentityRotationKeepsNormals"
+        elif any("process[1]" in st for st in f["steps"]) and (mm["key"] == "mutator" or mm["key"] in NORMAL_DERIVED):
+            # process(validate=True) removes and re-winds faces inside the cache lock
+            dev = "ProcessValidateUnderCacheLock"
+        V.violation("MutatorsEnabled" if mm["key"] == "mutator" else "NoStaleRead:" + mm["key"], f, dev)
     # "which values were read before a mutation never changes what is read after it": the arrays a
     # mutator leaves behind must not depend on what had been read (and therefore cached) before
-    n_indep = 0
     sdm = seeds(trimesh)
-    for sname in sorted(sdm):
-        for mu in mutators:
-            for vi, fmu in enumerate(MUTATORS[mu]):
-                a, b = build(trimesh, sdm[sname]), build(trimesh, sdm[sname])
-                for k in keys:
-                    if not k.startswith("q:"):
-                        try:
-                            getattr(b, k)
-                        except BaseException:
-                            pass
-                try:
-                    fmu(a)
-                    fmu(b)
-                except BaseException:
-                    continue
-                n_indep += 1
-                same = (a.vertices.shape == b.vertices.shape and np.allclose(a.vertices, b.vertices, atol=1e-12) and
-                        a.faces.shape == b.faces.shape and np.array_equal(a.faces, b.faces))
-                if not same:
-                    V.violation("ReadsBeforeDoNotChangeData", {"seed_mesh": sname, "mutator": "%s[%d]" % (mu, vi),
-                                                               "vertices_without_reads": list(a.vertices.shape), "vertices_with_reads": list(b.vertices.shape)},
-                                "MergeVerticesUsesCachedNormals" if mu in ("merge", "process") else None)
+    indep_work = [(sname, mu, vi, keys) for sname in sorted(sdm) for mu in mutators for vi in range(len(MUTATORS[mu]))]
+    indep_work += [(sname, "x:" + xm, 0, keys) for sname in sorted(sdm) for xm in sorted(XMUT)]
+    res3 = pmap(_indep_chunk, indep_work, chunk=6)
+    n_indep = sum(x[1] for x in res3)
+    for x in res3:
+        for sname, mu, vi, sa, sb in x[0]:
+            V.violation("ReadsBeforeDoNotChangeData", {"seed_mesh": sname, "mutator": "%s[%d]" % (mu, vi),
+                                                       "vertices_without_reads": sa, "vertices_with_reads": sb},
+                        "MergeVerticesUsesCachedNormals" if mu in ("merge", "process", "x:merge_digits") else None)
     cov["history_independence_cases"] = n_indep
     cov.update({
         "states": states, "transitions": trans,
         "traces_validated_against_impl": nrep + npair,
         "value_comparisons": nread,
         "keys": len(keys), "mutator_classes": len(mutators),
-        "concrete_mutators": sum(len(v) for v in MUTATORS.values()) + len(EDITS),
+        "concrete_mutators": sum(len(v) for v in MUTATORS.values()) + len(EDITS) + len(XMUT),
         "pair_histories": npair, "tlc_histories_replayed": nrep,
         "replay_wall_s": round(time.time() - t0, 1),
         "samples": [hists[len(hists) // 3], hists[-1], {"pair": list(map(str, pair_work[len(pair_work) // 2][:4]))}],
     })
     return V.finish("model_checking", cov, assumptions=[
-        "seed meshes: lattice tetrahedron, box with density/centre-of-mass overrides, two bodies, open strip with duplicated and unreferenced vertices",
+        "seed meshes: lattice tetrahedron, box with density/centre-of-mass overrides, two bodies, open strip with duplicated and unreferenced vertices, "
+        "80-face sphere with holes, two bodies with a duplicated vertex / repeated face / degenerate face / one face wound the wrong way",
+        "a mutator that raises counts only when the same call succeeds on a mesh freshly built from the arrays the subject had",
         "a value is compared only when two freshly built meshes agree on it (deterministic oracle)",
         "tolerances: 1e-9 relative for lengths/areas/volumes/unit vectors, 1e-6 for quantities obtained through arccos and facet/symmetry heuristics",
     ])
